@@ -156,7 +156,9 @@ func NumericIntDo(op NumericOp, a, b *SexpInt) Sexp {
 	case Mult:
 		return &SexpInt{Val: a.Val * b.Val}
 	case Div:
-		if a.Val%b.Val == 0 {
+		// -2^63 / -1 = 2^63 divides but is not an int64 (Go's quotient
+		// wraps to -2^63): the float holds it exactly.
+		if a.Val%b.Val == 0 && !(a.Val == math.MinInt64 && b.Val == -1) {
 			return &SexpInt{Val: a.Val / b.Val}
 		} else {
 			return &SexpFloat{Val: float64(a.Val) / float64(b.Val)}
